@@ -73,22 +73,33 @@ def decode_value(text):  # type: (str) -> str
 
 
 def decode_define(line):  # type: (str) -> typing.Tuple[str, str, str]
+    """Parameter definition of BUSMASTER: "name",INT|HEX|FLOAT,initial value,minimum,maximum /
+    "name",ENUM,"value",...,"initial value" / "name",STRING,"initial value"."""
     (define, value_type, value) = line.split(',', 2)
     value_type = value_type.strip()
-    if value_type == "INT" or value_type == "HEX":
-        (Min, Max, default) = value.split(',', 2)
+    if value_type in ("INT", "HEX", "FLOAT"):
+        (default, Min, Max) = value.split(',', 2)
         my_def = value_type + ' ' + Min.strip() + ' ' + Max.strip()
         default = default.strip()
     elif value_type == "ENUM":
         (enums, default) = value.rsplit(',', 1)
-        my_def = value_type + "  " + enums[1:]
+        my_def = value_type + "  " + enums.lstrip(',')
     elif value_type == "STRING":
         my_def = value_type
         default = value
     else:
-        logger.debug(line)
+        raise ValueError("unknown parameter type " + value_type)
 
     return define[1:-1], my_def, default
+
+
+def create_define(name, define):  # type: (str, canmatrix.Define) -> str
+    default_val = define.defaultValue
+    if default_val is None:
+        default_val = "0"
+    if define.type in ("INT", "HEX", "FLOAT"):
+        return '"%s",%s,%s,%s,%s\n' % (name, define.type, default_val, define.min, define.max)
+    return '"' + name + '",' + define.definition.replace(' ', ',') + ',' + default_val + '\n'
 
 
 def load(f, **options):  # type: (typing.IO, **typing.Any) -> canmatrix.CanMatrix
@@ -499,38 +510,26 @@ def dump(mydb, f, **options):
     # db-parameter
     out_str += "[START_PARAM_NET]\n"
     for (data_type, define) in sorted(list(db.global_defines.items())):
-        default_val = define.defaultValue
-        if default_val is None:
-            default_val = "0"
-        out_str += '"' + data_type + '",' + define.definition.replace(' ', ',') + ',' + default_val + '\n'
+        out_str += create_define(data_type, define)
     out_str += "[END_PARAM_NET]\n"
 
     # bu-parameter
     out_str += "[START_PARAM_NODE]\n"
     for (data_type, define) in sorted(list(db.ecu_defines.items())):
-        default_val = define.defaultValue
-        if default_val is None:
-            default_val = "0"
-        out_str += '"' + data_type + '",' + define.definition.replace(' ', ',') + ',' + default_val + '\n'
+        out_str += create_define(data_type, define)
     out_str += "[END_PARAM_NODE]\n"
 
     # frame-parameter
     out_str += "[START_PARAM_MSG]\n"
     for (data_type, define) in sorted(list(db.frame_defines.items())):
-        default_val = define.defaultValue
-        if default_val is None:
-            default_val = "0"
-        out_str += '"' + data_type + '",'  + define.definition.replace(' ', ',') + '\n'  # + ',' + default_val + '\n'
+        out_str += create_define(data_type, define)
 
     out_str += "[END_PARAM_MSG]\n"
 
     # signal-parameter
     out_str += "[START_PARAM_SIG]\n"
     for (data_type, define) in list(db.signal_defines.items()):
-        default_val = define.defaultValue
-        if default_val is None:
-            default_val = "0"
-        out_str += '"' + data_type + '",' + define.definition.replace(' ', ',') + ',' + default_val + '\n'
+        out_str += create_define(data_type, define)
     out_str += "[END_PARAM_SIG]\n"
 
     out_str += "[START_PARAM_VAL]\n"
